@@ -624,6 +624,62 @@ def rule_SS5(ctx, rep):
 
 
 # ---------------------------------------------------------------------------------- SS6
+def _arc_role(v, graph='sender_receivers'):
+    """Which set of parties does expression v select from the arc set `graph` (arcs (a, b): a sends to b; as a dict: sender ->
+    receivers)?  'S' = the parties that send to me, 'R' = the parties I send to, None = not an expression over the arc set."""
+    while isinstance(v, ast.Call) and isinstance(v.func, ast.Name) and v.func.id in ('list', 'tuple', 'sorted', 'set') and len(v.args) == 1:
+        v = v.args[0]
+    me = 'self.pid'
+    if isinstance(v, ast.Subscript) and norm(v.value) == graph:
+        return 'R' if norm(v.slice) == me else '?'
+    if isinstance(v, ast.Call) and isinstance(v.func, ast.Attribute) and v.func.attr == 'get' and norm(v.func.value) == graph and v.args:
+        return 'R' if norm(v.args[0]) == me else '?'
+    if isinstance(v, (ast.ListComp, ast.GeneratorExp, ast.SetComp)) and len(v.generators) == 1:
+        g = v.generators[0]
+        it = norm(g.iter)
+        if it not in (graph, graph + '.items()'):
+            return None
+        if not (isinstance(g.target, ast.Tuple) and len(g.target.elts) == 2 and all(isinstance(e, ast.Name) for e in g.target.elts)
+                and isinstance(v.elt, ast.Name) and len(g.ifs) == 1 and isinstance(g.ifs[0], ast.Compare) and len(g.ifs[0].ops) == 1):
+            return '?'
+        x, y = (e.id for e in g.target.elts)
+        t = g.ifs[0]
+        l, r, op = norm(t.left), norm(t.comparators[0]), t.ops[0]
+        if it == graph:                 # list of arcs
+            if isinstance(op, ast.Eq) and {l, r} == {y, me} and v.elt.id == x:
+                return 'S'
+            if isinstance(op, ast.Eq) and {l, r} == {x, me} and v.elt.id == y:
+                return 'R'
+            return '?'
+        # dict sender -> receivers
+        if isinstance(op, ast.In) and l == me and r == y and v.elt.id == x:
+            return 'S'
+        return '?'
+    return None
+
+
+def _graph_roles(rep, rule, fn, ms, mr):
+    """Graph form of transfer: my_senders must select the parties with an arc to me, my_receivers the parties I have an arc to,
+    in the list-of-arcs and in the dict representation alike."""
+    n = 0
+    for name, want, defs in (('my_senders', 'S', ms), ('my_receivers', 'R', mr)):
+        for v in defs:
+            role = _arc_role(v)
+            if role is None:
+                continue
+            n += 1
+            if role == want:
+                rep.ok(rule, fn, v, f'{name}: arcs (a, b) mean a sends to b; this selects the parties that ' + ('send to me' if want == 'S' else 'I send to'))
+            elif role == '?':
+                rep.skip(rule, fn, v, f'{name}: expression over the arc set not in a recognised shape')
+            else:
+                rep.bad(rule, fn, v, f'{name} is computed from the arc set with the roles of sender and receiver exchanged: every arc a->b is used as b->a, '
+                        'so messages go to parties that are not the designated receivers')
+    if n < 4:
+        rep.skip(rule, fn, 'my_senders / my_receivers (graph form)', f'only {n} of the 4 graph-form definitions found', fn.node)
+
+
+
 def rule_SS6(ctx, rep):
     """routing duality: the set of (sender, receiver) pairs implied by the send side equals the one
     implied by the receive side (offset intervals modulo m); point counts t+1 / 2t+1."""
@@ -730,19 +786,7 @@ def rule_SS6(ctx, rep):
     else:
         rep.bad('SS6', fn, 'my_senders / my_receivers (bipartite form)', 'the bipartite routing is not "receive from senders iff receiver; send to receivers iff sender": '
                 'some message is sent that nobody receives, or a receive is never matched', fn.node)
-    comps_s = [v for v in ms if isinstance(v, ast.ListComp)]
-    comps_r = [v for v in mr if isinstance(v, (ast.ListComp, ast.Call))]
-    good = len(comps_s) == 2 and len(comps_r) == 2
-    if good:
-        txt_s = sorted(norm(v) for v in comps_s)
-        txt_r = sorted(norm(v) for v in comps_r)
-        good = txt_s == sorted(['[a for a, b in sender_receivers.items() if self.pid in b]', '[a for a, b in sender_receivers if b == self.pid]']) and \
-            txt_r == sorted(['list(sender_receivers[self.pid])', '[b for a, b in sender_receivers if a == self.pid]'])
-    if good:
-        rep.ok('SS6', fn, 'my_senders / my_receivers (graph form)', 'arcs (a, b): a sends to b, b receives from a, in both representations', fn.node)
-    else:
-        # structural (not textual) fallback: pairs form must be mirror images under a<->b
-        rep.skip('SS6', fn, 'my_senders / my_receivers (graph form)', 'graph-form comprehensions not in the recognised shape', fn.node)
+    _graph_roles(rep, 'SS6', fn, ms, mr)
     sends = calls_named(fn.node, '_send_message')
     recvs = calls_named(fn.node, '_receive_message')
     if len(sends) == 1 and len(recvs) == 1:
@@ -1019,3 +1063,15 @@ def rule_PR1(ctx, rep):
         rep.ok('PR1', f0n, pw[0], 'array variant: powers (i+1)^1..(i+1)^d')
     else:
         rep.bad('PR1', f0n, pw[0] if pw else f0n.qualname, 'array variant does not use the powers (i+1)^1..(i+1)^d', f0n.node)
+
+
+# ---------------------------------------------------------------------------------- MK6
+def rule_MK6(ctx, rep):
+    """transfer along a graph: messages follow the arcs in their direction -- the parties a message is sent to are the heads of
+    the arcs leaving this party, in both representations of the arc set (a party that is not a designated receiver gets nothing)."""
+    fn = ctx.model.func('runtime::Runtime.transfer')
+    ms = [v for _, v, _ in definitions(fn.node, 'my_senders')]
+    mr = [v for _, v, _ in definitions(fn.node, 'my_receivers')]
+    if not ms or not mr:
+        raise AnalysisError('MK6: my_senders / my_receivers not defined in runtime::Runtime.transfer')
+    _graph_roles(rep, 'MK6', fn, ms, mr)
